@@ -76,7 +76,8 @@ Step(h, op, recv, a) ==
          IN Res(FALSE, r.o, <<>>, r, ~CharSitesUnjudgeable(o, a.chars, a.p, a.q, a.icase, a.igaps, a.ins, a.rev) /\ Len(o.rows) > 0)
     [] op = "RemoveMajorityCharacterSites" ->
          LET r == CleanSitesResult(o, MajSitesQ(o, a.p, a.q, a.igaps, a.ins), a.ends)
-         IN Res(FALSE, r.o, <<>>, r, ~MajSitesUnjudgeable(o, a.p, a.q, a.igaps, a.ins) /\ Len(o.rows) > 0)
+         \* a cutoff outside [0,1] is outside the property's quantifier (doc comment: "set to 0"; the code keeps it): not judged
+         IN Res(FALSE, r.o, <<>>, r, ~MajSitesUnjudgeable(o, a.p, a.q, a.igaps, a.ins) /\ Len(o.rows) > 0 /\ a.p >= 0 /\ a.p <= a.q)
     [] op = "RemoveGapSeqs" ->
          LET r == CharSeqsOp(o, GAP, a.p, a.q, FALSE, FALSE, a.ins)
          IN [r EXCEPT !.j = ~CharSeqsUnjudgeable(o, GAP, a.p, a.q, FALSE, FALSE, a.ins)]
